@@ -27,37 +27,23 @@ structure Sound (s0 s : St) (a : Abs) : Prop where
   next : s0.next ≤ s.next
   ro : SoundRO s.readonly a.nro a.isro
 
-def Holds (s0 : St) (o : Option Abs) (s : St) : Prop := ∃ a, o = some a ∧ Sound s0 s a
+def Holds (s0 : St) (o : AbsSet) (s : St) : Prop := ∃ a ∈ o, Sound s0 s a
 
-def OK (s0 : St) (r : Res) (p : Post) : Prop :=
-  match r.exit with
-  | .norm => Holds s0 p.norm r.st
-  | .ret => Holds s0 p.ret r.st
-  | .brk => Holds s0 p.brk r.st
-  | .cont => Holds s0 p.cont r.st
-  | .exc => Holds s0 p.exc r.st
-  | .roExc => Holds s0 p.roExc r.st
-  | .stuck => True
+def OK (s0 : St) (r : Res) (p : Post) : Prop := r.exit = .stuck ∨ Holds s0 (p.get r.exit) r.st
 
-theorem Sound.meet_left {s0 s : St} {a : Abs} (b : Abs) (h : Sound s0 s a) : Sound s0 s (a.meet b) := by
-  refine ⟨?_, ?_, ?_, ?_, ?_, h.next, ?_⟩
-  · intro f hf; exact h.clean f (List.mem_filter.mp hf).1
-  · intro f hf; exact h.valid f (List.mem_filter.mp hf).1
-  · intro f hf; exact h.cvalid f (List.mem_filter.mp hf).1
-  · intro f hf; exact h.fresh f (List.mem_filter.mp hf).1
-  · intro p hp; exact h.known p (List.mem_filter.mp hp).1
-  · exact h.ro.weaken (fun x => by simp only [Abs.meet, Bool.and_eq_true] at x; exact x.1)
-      (fun x => by simp only [Abs.meet, Bool.and_eq_true] at x; exact x.1)
-
-theorem Sound.meet_right {s0 s : St} {b : Abs} (a : Abs) (h : Sound s0 s b) : Sound s0 s (a.meet b) := by
-  refine ⟨?_, ?_, ?_, ?_, ?_, h.next, ?_⟩
-  · intro f hf; exact h.clean f (by simpa using (List.mem_filter.mp hf).2)
-  · intro f hf; exact h.valid f (by simpa using (List.mem_filter.mp hf).2)
-  · intro f hf; exact h.cvalid f (by simpa using (List.mem_filter.mp hf).2)
-  · intro f hf; exact h.fresh f (by simpa using (List.mem_filter.mp hf).2)
-  · intro p hp; exact h.known p (by simpa using (List.mem_filter.mp hp).2)
-  · exact h.ro.weaken (fun x => by simp only [Abs.meet, Bool.and_eq_true] at x; exact x.2)
-      (fun x => by simp only [Abs.meet, Bool.and_eq_true] at x; exact x.2)
+theorem mem_union {a b : AbsSet} {x : Abs} : x ∈ a.union b ↔ x ∈ a ∨ x ∈ b := by
+  unfold AbsSet.union
+  constructor
+  · intro h
+    rcases List.mem_append.mp h with h | h
+    · exact Or.inl h
+    · exact Or.inr (List.mem_filter.mp h).1
+  · intro h
+    by_cases hx : x ∈ a
+    · exact List.mem_append.mpr (Or.inl hx)
+    · rcases h with h | h
+      · exact absurd h hx
+      · exact List.mem_append.mpr (Or.inr (List.mem_filter.mpr ⟨h, by simpa using hx⟩))
 
 theorem Sound.of_le {s0 s : St} {i x : Abs} (hle : i.le x = true) (h : Sound s0 s x) : Sound s0 s i := by
   simp only [Abs.le, Bool.and_eq_true, List.all_eq_true, decide_eq_true_eq] at hle
@@ -77,28 +63,51 @@ theorem Sound.bot {s0 s : St} {a : Abs} (h : Sound s0 s a) : Sound s0 s Abs.bot 
    fun _ hf => by simp [Abs.bot] at hf, fun _ hf => by simp [Abs.bot] at hf, h.next,
    ⟨fun hn => by simp [Abs.bot] at hn, fun hn => by simp [Abs.bot] at hn⟩⟩
 
-theorem Holds.omeet_left {s0 s : St} {o : Option Abs} (o' : Option Abs) (h : Holds s0 o s) :
-    Holds s0 (omeet o o') s := by
-  obtain ⟨a, rfl, ha⟩ := h
-  cases o' with
-  | none => exact ⟨a, rfl, ha⟩
-  | some b => exact ⟨a.meet b, rfl, ha.meet_left b⟩
+theorem Holds.union_left {s0 s : St} {o : AbsSet} (o' : AbsSet) (h : Holds s0 o s) : Holds s0 (o.union o') s := by
+  obtain ⟨a, ha, hs⟩ := h
+  exact ⟨a, mem_union.mpr (Or.inl ha), hs⟩
 
-theorem Holds.omeet_right {s0 s : St} {o' : Option Abs} (o : Option Abs) (h : Holds s0 o' s) :
-    Holds s0 (omeet o o') s := by
-  obtain ⟨b, rfl, hb⟩ := h
-  cases o with
-  | none => exact ⟨b, rfl, hb⟩
-  | some a => exact ⟨a.meet b, rfl, hb.meet_right a⟩
+theorem Holds.union_right {s0 s : St} {o' : AbsSet} (o : AbsSet) (h : Holds s0 o' s) : Holds s0 (o.union o') s := by
+  obtain ⟨a, ha, hs⟩ := h
+  exact ⟨a, mem_union.mpr (Or.inr ha), hs⟩
+
+theorem Holds.covers {s0 s : St} {X I : AbsSet} (h : Holds s0 X s) (hc : I.coversAll X = true) : Holds s0 I s := by
+  obtain ⟨x, hx, hs⟩ := h
+  simp only [AbsSet.coversAll, List.all_eq_true] at hc
+  have := hc x hx
+  simp only [AbsSet.covers, List.any_eq_true] at this
+  obtain ⟨i, hi, hle⟩ := this
+  exact ⟨i, hi, Sound.of_le hle hs⟩
+
+theorem get_join_left (p q : Post) (k : Exit) {x : Abs} (h : x ∈ p.get k) : x ∈ (p.join q).get k := by
+  cases k <;> first | exact mem_union.mpr (Or.inl h) | (simp only [Post.get] at h; cases h)
+
+theorem get_join_right (p q : Post) (k : Exit) {x : Abs} (h : x ∈ q.get k) : x ∈ (p.join q).get k := by
+  cases k <;> first | exact mem_union.mpr (Or.inr h) | (simp only [Post.get] at h; cases h)
 
 theorem OK.join_left {s0 : St} {r : Res} {p : Post} (q : Post) (h : OK s0 r p) : OK s0 r (p.join q) := by
-  unfold OK at *
-  cases hr : r.exit <;> simp only [hr] at h ⊢ <;> first | trivial | exact Holds.omeet_left _ h
+  rcases h with h | ⟨a, ha, hs⟩
+  · exact Or.inl h
+  · exact Or.inr ⟨a, get_join_left p q _ ha, hs⟩
 
 theorem OK.join_right {s0 : St} {r : Res} {q : Post} (p : Post) (h : OK s0 r q) : OK s0 r (p.join q) := by
-  unfold OK at *
-  cases hr : r.exit <;> simp only [hr] at h ⊢ <;> first | trivial | exact Holds.omeet_right _ h
+  rcases h with h | ⟨a, ha, hs⟩
+  · exact Or.inl h
+  · exact Or.inr ⟨a, get_join_right p q _ ha, hs⟩
 
+/-- continuing from one member of the set is covered by continuing from all of them -/
+theorem OK.ofBind {s0 : St} {r : Res} {f : Abs → Post} {A : AbsSet} {a : Abs} (ha : a ∈ A) (h : OK s0 r (f a)) :
+    OK s0 r (bindAll f A) := by
+  induction A with
+  | nil => cases ha
+  | cons x rest ih =>
+    simp only [bindAll]
+    rcases List.mem_cons.mp ha with rfl | hr
+    · exact OK.join_left _ h
+    · exact OK.join_right _ (ih hr)
+
+theorem OK.of_exit {s0 : St} {r : Res} {p : Post} (k : Exit) (hk : r.exit = k) (h : Holds s0 (p.get k) r.st) :
+    OK s0 r p := Or.inr (by rw [hk]; exact h)
 
 /-! primitive steps -/
 section prim
@@ -281,6 +290,15 @@ theorem sound_setFlag (b : Flag) (v : Bool) (h : Sound s0 s a) : Sound s0 (s.set
   · simp [St.setFlag]
   · exact hd.known p hp
 
+theorem sound_setFlag_same (b : Flag) (v : Bool) (hf : s.flags b = v) (h : Sound s0 s a) :
+    Sound s0 s (a.setFlag b v) := by
+  refine ⟨h.clean, h.valid, h.cvalid, h.fresh, ?_, h.next, h.ro⟩
+  intro p hp
+  simp only [Abs.setFlag, List.mem_cons] at hp
+  rcases hp with rfl | hp
+  · exact hf
+  · exact h.known p (List.mem_filter.mp hp).1
+
 theorem flagVal_sound {b : Flag} {v : Bool} (h : Sound s0 s a) (hv : a.flagVal b = some v) : s.flags b = v := by
   unfold Abs.flagVal at hv
   split at hv
@@ -291,88 +309,54 @@ theorem flagVal_sound {b : Flag} {v : Bool} (h : Sound s0 s a) (hv : a.flagVal b
 
 end prim
 
-theorem OK.norm_of {s0 : St} {st : St} {os : Outcomes} {p : Post} (h : Holds s0 p.norm st) :
-    OK s0 ⟨.norm, st, os⟩ p := h
-
-/-- soundness of sequencing: continuing from the normal exit -/
-theorem OK.bind {s0 : St} {r r2 : Res} {p : Post} {k : Abs → Post}
-    (h : OK s0 r p)
-    (hk : ∀ a, p.norm = some a → Sound s0 r.st a → r.exit = .norm → OK s0 r2 (k a))
-    (hr : r.exit ≠ .norm → r2 = r) : OK s0 r2 (p.bind k) := by
-  unfold Post.bind
-  cases hn : p.norm with
-  | none =>
-    simp only
-    by_cases he : r.exit = .norm
-    · unfold OK at h; simp only [he] at h
-      obtain ⟨a, ha, _⟩ := h
-      rw [hn] at ha; cases ha
-    · rw [hr he]; exact h
-  | some a =>
-    simp only
-    by_cases he : r.exit = .norm
-    · unfold OK at h; simp only [he] at h
-      obtain ⟨a', ha', hs⟩ := h
-      rw [hn] at ha'; cases ha'
-      exact OK.join_right _ (hk a hn hs he)
-    · rw [hr he]
-      apply OK.join_left
-      unfold OK at *
-      cases hx : r.exit <;> simp only [hx] at h ⊢ <;> first | trivial | exact h | exact absurd hx he
-
-/-- component of a post for a way of ending -/
-def Post.get (p : Post) : Exit → Option Abs
-  | .norm => p.norm | .ret => p.ret | .brk => p.brk | .cont => p.cont | .exc => p.exc | .roExc => p.roExc
-  | .stuck => none
-
-theorem OK_iff {s0 : St} {r : Res} {p : Post} : OK s0 r p ↔ (r.exit = .stuck ∨ Holds s0 (p.get r.exit) r.st) := by
-  unfold OK Post.get
-  cases r.exit <;> simp
-
-theorem finThru_ok {s0 : St} {pf : Abs → Post} {o : Option Abs} {k : Exit} {r2 : Res} {x : Abs}
-    (ho : o = some x) (hk : k ≠ .stuck) (h2 : OK s0 r2 (pf x)) :
-    OK s0 (match r2.exit with | .norm => ⟨k, r2.st, r2.os⟩ | _ => r2) (finThru pf o k) := by
-  subst ho
-  simp only [finThru]
-  rw [OK_iff] at h2
-  by_cases he : r2.exit = .norm
-  · simp only [he]
-    rcases h2 with h2 | h2
-    · rw [he] at h2; cases h2
-    · rw [he] at h2
-      simp only [Post.get] at h2
-      rw [OK_iff]; right
-      cases k <;> simp only [Post.put, Post.get] <;>
-        first | exact absurd rfl hk | exact Holds.omeet_right _ h2
-  · have : (match r2.exit with | .norm => (⟨k, r2.st, r2.os⟩ : Res) | _ => r2) = r2 := by
-      split
-      · rename_i h; exact absurd h he
-      · rfl
-    rw [this, OK_iff]
-    rcases h2 with h2 | h2
-    · left; exact h2
-    · right
-      cases hx : r2.exit <;> rw [hx] at h2 he <;> simp only [Post.get] at h2 <;> cases k <;>
-        simp only [Post.put, Post.get] <;>
-        first | exact absurd rfl he | exact absurd rfl hk | exact h2 | exact Holds.omeet_left _ h2
-
-theorem invStable_norm {body : Abs → Post} {i x : Abs} (h : invStable body i = true) (hx : (body i).norm = some x) :
-    i.le x = true := by
-  simp only [invStable, hx, Bool.and_eq_true] at h; exact h.1
-
-theorem invStable_cont {body : Abs → Post} {i x : Abs} (h : invStable body i = true) (hx : (body i).cont = some x) :
-    i.le x = true := by
-  simp only [invStable, hx, Bool.and_eq_true] at h; exact h.2
-
-theorem invStable_bot (body : Abs → Post) : invStable body Abs.bot = true := by
-  simp only [invStable, Bool.and_eq_true]
-  constructor <;> split <;> simp [Abs.le, Abs.bot]
+theorem finThru_ok {s0 : St} {pf : Abs → Post} {A : AbsSet} {k : Exit} {r2 : Res} {x : Abs}
+    (hx : x ∈ A) (hk : k ≠ .stuck) (h2 : OK s0 r2 (pf x)) :
+    OK s0 (match r2.exit with | .norm => ⟨k, r2.st, r2.os⟩ | _ => r2) (finThru pf k A) := by
+  induction A with
+  | nil => cases hx
+  | cons y rest ih =>
+    simp only [finThru]
+    rcases List.mem_cons.mp hx with rfl | hr
+    · apply OK.join_left
+      rcases h2 with h2 | ⟨a, ha, hs⟩
+      · left; simp only [h2]
+      · by_cases he : r2.exit = .norm
+        · simp only [he]
+          rw [he] at ha
+          simp only [Post.get] at ha
+          refine Or.inr ⟨a, ?_, hs⟩
+          cases k <;> simp only [Post.put, Post.get] <;>
+            first | exact absurd rfl hk | exact mem_union.mpr (Or.inr ha)
+        · have : (match r2.exit with | .norm => (⟨k, r2.st, r2.os⟩ : Res) | _ => r2) = r2 := by
+            split
+            · rename_i h; exact absurd h he
+            · rfl
+          rw [this]
+          refine Or.inr ⟨a, ?_, hs⟩
+          cases hx2 : r2.exit <;> rw [hx2] at ha he <;> simp only [Post.get] at ha <;> cases k <;>
+            simp only [Post.put, Post.get] <;>
+            first | exact absurd rfl he | exact absurd rfl hk | exact ha | exact mem_union.mpr (Or.inl ha) | cases ha
+    · exact OK.join_right _ (ih hr)
 
 theorem run_zero (sc : Stmt) (s : St) (os : Outcomes) : run 0 sc s os = ⟨.stuck, s, os⟩ := by
   unfold run; rfl
 
-/-- **Soundness of the analysis**: whatever way an execution ends, the abstract post-state for that way of
-ending exists and describes the concrete final state. -/
+theorem invStable_norm {body : Abs → Post} {I : AbsSet} (h : invStable body I = true) :
+    I.coversAll (bindAll body I).norm = true := by
+  simp only [invStable, Bool.and_eq_true] at h; exact h.1
+
+theorem invStable_cont {body : Abs → Post} {I : AbsSet} (h : invStable body I = true) :
+    I.coversAll (bindAll body I).cont = true := by
+  simp only [invStable, Bool.and_eq_true] at h; exact h.2
+
+theorem bindAll_bot_norm_covered (body : Abs → Post) : invStable body [Abs.bot] = true := by
+  have hb : ∀ x : Abs, AbsSet.covers [Abs.bot] x = true := by
+    intro x; simp [AbsSet.covers, Abs.le, Abs.bot]
+  simp only [invStable, AbsSet.coversAll, Bool.and_eq_true, List.all_eq_true]
+  exact ⟨fun x _ => hb x, fun x _ => hb x⟩
+
+/-- **Soundness of the analysis**: whatever way an execution ends, some abstract post-state computed for that way
+of ending describes the concrete final state. -/
 theorem post_sound (s0 : St) (h0 : ∀ f, s0.cur f < s0.next) :
     ∀ fuel sc s a os, Sound s0 s a → OK s0 (run fuel sc s os) (post sc a) := by
   intro fuel
@@ -380,61 +364,69 @@ theorem post_sound (s0 : St) (h0 : ∀ f, s0.cur f < s0.next) :
   | _ n ih =>
     intro sc s a os hs
     cases n with
-    | zero => rw [run_zero]; trivial
+    | zero => rw [run_zero]; exact Or.inl rfl
     | succ n =>
       have ihn : ∀ sc s a os, Sound s0 s a → OK s0 (run n sc s os) (post sc a) :=
         ih n (Nat.lt_succ_self n)
+      have one : ∀ {st : St} {os' : Outcomes} {p : Post} {x : Abs} (k : Exit), k ≠ .stuck → x ∈ p.get k →
+          Sound s0 st x → OK s0 ⟨k, st, os'⟩ p := fun k _ hx hsx => Or.inr ⟨_, hx, hsx⟩
       cases sc with
-      | skip => simp only [run, post]; exact ⟨a, rfl, hs⟩
+      | skip => simp only [run, post]; exact one .norm (by decide) (by simp [Post.get]) hs
       | mark k =>
         simp only [run, post]
-        exact ⟨a, rfl, ⟨hs.clean, hs.valid, hs.cvalid, hs.fresh, hs.known, hs.next, hs.ro⟩⟩
-      | assign f => simp only [run, post]; exact ⟨_, rfl, sound_assign f hs⟩
-      | mutate f => simp only [run, post]; exact ⟨_, rfl, sound_mutate h0 f hs⟩
-      | save f => simp only [run, post]; exact ⟨_, rfl, sound_save f hs⟩
-      | restore f => simp only [run, post]; exact ⟨_, rfl, sound_restore f hs⟩
-      | saveC f => simp only [run, post]; exact ⟨_, rfl, sound_saveC f hs⟩
-      | restoreC f => simp only [run, post]; exact ⟨_, rfl, sound_restoreC f hs⟩
+        exact one .norm (by decide) (by simp [Post.get])
+          ⟨hs.clean, hs.valid, hs.cvalid, hs.fresh, hs.known, hs.next, hs.ro⟩
+      | assign f => simp only [run, post]; exact one .norm (by decide) (by simp [Post.get]) (sound_assign f hs)
+      | mutate f => simp only [run, post]; exact one .norm (by decide) (by simp [Post.get]) (sound_mutate h0 f hs)
+      | save f => simp only [run, post]; exact one .norm (by decide) (by simp [Post.get]) (sound_save f hs)
+      | restore f => simp only [run, post]; exact one .norm (by decide) (by simp [Post.get]) (sound_restore f hs)
+      | saveC f => simp only [run, post]; exact one .norm (by decide) (by simp [Post.get]) (sound_saveC f hs)
+      | restoreC f => simp only [run, post]; exact one .norm (by decide) (by simp [Post.get]) (sound_restoreC f hs)
       | guard =>
         simp only [run, post]
         cases hi : a.isro with
         | true =>
           have := hs.ro.2 hi
           simp only [this, if_true]
-          exact ⟨a, rfl, hs⟩
+          exact one .roExc (by decide) (by simp [Post.get]) hs
         | false =>
           simp only [Bool.false_eq_true, if_false]
           cases hn : a.nro with
           | true =>
             have := hs.ro.1 hn
             simp only [this, if_true]
-            exact ⟨a, rfl, hs⟩
+            exact one .norm (by decide) (by simp [Post.get]) hs
           | false =>
             simp only [Bool.false_eq_true, if_false]
             cases hr : s.readonly with
-            | true => exact ⟨a, rfl, hs⟩
+            | true => exact one .roExc (by decide) (by simp [Post.get]) hs
             | false =>
-              refine ⟨_, rfl, ⟨hs.clean, hs.valid, hs.cvalid, hs.fresh, hs.known, hs.next, ?_⟩⟩
+              refine Or.inr ⟨{ a with nro := true }, by simp [Post.get, hi],
+                ⟨hs.clean, hs.valid, hs.cvalid, hs.fresh, hs.known, hs.next, ?_⟩⟩
               exact ⟨fun _ => hr, fun x => by simp [hi] at x⟩
-      | raise => simp only [run, post]; exact ⟨a, rfl, hs⟩
+      | raise => simp only [run, post]; exact one .exc (by decide) (by simp [Post.get]) hs
       | mayRaise =>
         simp only [run, post]
         split
-        · exact ⟨a, rfl, hs⟩
-        · exact ⟨a, rfl, hs⟩
-      | ret => simp only [run, post]; exact ⟨a, rfl, hs⟩
-      | brk => simp only [run, post]; exact ⟨a, rfl, hs⟩
-      | cont => simp only [run, post]; exact ⟨a, rfl, hs⟩
-      | setFlag b v => simp only [run, post]; exact ⟨_, rfl, sound_setFlag b v hs⟩
-      | havoc b => simp only [run, post]; exact ⟨_, rfl, sound_dropFlag b _ hs⟩
+        · exact one .exc (by decide) (by simp [Post.get]) hs
+        · exact one .norm (by decide) (by simp [Post.get]) hs
+      | ret => simp only [run, post]; exact one .ret (by decide) (by simp [Post.get]) hs
+      | brk => simp only [run, post]; exact one .brk (by decide) (by simp [Post.get]) hs
+      | cont => simp only [run, post]; exact one .cont (by decide) (by simp [Post.get]) hs
+      | setFlag b v => simp only [run, post]; exact one .norm (by decide) (by simp [Post.get]) (sound_setFlag b v hs)
+      | havoc b => simp only [run, post]; exact one .norm (by decide) (by simp [Post.get]) (sound_dropFlag b _ hs)
       | ifFlag b t e =>
         simp only [run, post]
         cases hv : a.flagVal b with
         | none =>
           simp only
-          split
-          · exact OK.join_left _ (ihn t s a os hs)
-          · exact OK.join_right _ (ihn e s a os hs)
+          cases hf : s.flags b with
+          | true =>
+            simp only [if_true]
+            exact OK.join_left _ (ihn t s _ os (sound_setFlag_same b true hf hs))
+          | false =>
+            simp only [Bool.false_eq_true, if_false]
+            exact OK.join_right _ (ihn e s _ os (sound_setFlag_same b false hf hs))
         | some v =>
           have := flagVal_sound hs hv
           cases v with
@@ -442,155 +434,119 @@ theorem post_sound (s0 : St) (h0 : ∀ f, s0.cur f < s0.next) :
           | false => simp only [this]; exact ihn e s a os hs
       | seq x y =>
         simp only [run, post]
-        apply OK.bind (ihn x s a os hs)
-        · intro a' _ hs' he
-          simp only [he]
-          exact ihn y _ a' _ hs'
-        · intro he
-          split
-          · rename_i h; exact absurd h he
-          · rfl
+        have hb := ihn x s a os hs
+        generalize run n x s os = r at hb ⊢
+        generalize post x a = p at hb ⊢
+        rcases hb with hb | ⟨a', ha', hs'⟩
+        · left; simp only [hb]
+        · by_cases he : r.exit = .norm
+          · simp only [he]
+            rw [he] at ha'
+            simp only [Post.get] at ha'
+            exact OK.join_right _ (OK.ofBind ha' (ihn y _ a' _ hs'))
+          · split
+            · rename_i h; exact absurd h he
+            · apply OK.join_left
+              refine Or.inr ⟨a', ?_, hs'⟩
+              cases hx : r.exit <;> rw [hx] at ha' he <;> simp only [Post.get] at ha' ⊢ <;>
+                first | exact absurd rfl he | exact ha'
       | choice x y =>
         simp only [run, post]
         split
         · exact OK.join_left _ (ihn x s a _ hs)
         · exact OK.join_right _ (ihn y s a _ hs)
       | loop body els =>
-        have key : ∀ i : Abs, invStable (post body) i = true →
-            ∀ m, m ≤ n + 1 → ∀ s os, Sound s0 s i →
+        have key : ∀ I : AbsSet, invStable (post body) I = true →
+            ∀ m, m ≤ n + 1 → ∀ s os, Holds s0 I s →
               OK s0 (run m (.loop body els) s os)
-                (Post.join { norm := (post body i).brk, ret := (post body i).ret,
-                             exc := (post body i).exc, roExc := (post body i).roExc } (post els i)) := by
-          intro i hstab m
+                (Post.join { norm := (bindAll (post body) I).brk, ret := (bindAll (post body) I).ret,
+                             exc := (bindAll (post body) I).exc, roExc := (bindAll (post body) I).roExc }
+                  (bindAll (post els) I)) := by
+          intro I hstab m
           induction m with
-          | zero => intro _ s os _; rw [run_zero]; trivial
+          | zero => intro _ s os _; rw [run_zero]; exact Or.inl rfl
           | succ m ihm =>
-            intro hm s os hsi
+            intro hm s os hI
+            obtain ⟨i, hi, hsi⟩ := hI
             simp only [run]
             split
-            · have hb := ih m (by omega) body s i (nextOutcome os).2 hsi
+            · have hb : OK s0 (run m body s (nextOutcome os).2) (bindAll (post body) I) :=
+                OK.ofBind hi (ih m (by omega) body s i (nextOutcome os).2 hsi)
               generalize run m body s (nextOutcome os).2 = r at hb ⊢
-              rw [OK_iff] at hb
-              cases hx : r.exit <;> rw [hx] at hb <;> simp only [Post.get] at hb <;> simp only []
-              case stuck => rw [OK_iff]; left; exact hx
-              case norm =>
-                rcases hb with hb | hb
-                · cases hb
-                · obtain ⟨x, hxe, hsx⟩ := hb
-                  exact ihm (by omega) _ _ (Sound.of_le (invStable_norm hstab hxe) hsx)
-              case cont =>
-                rcases hb with hb | hb
-                · cases hb
-                · obtain ⟨x, hxe, hsx⟩ := hb
-                  exact ihm (by omega) _ _ (Sound.of_le (invStable_cont hstab hxe) hsx)
-              case brk =>
-                rcases hb with hb | hb
-                · cases hb
-                · apply OK.join_left
-                  exact hb
-              all_goals
-                apply OK.join_left
-                rw [OK_iff]; right; rw [hx]
-                rcases hb with hb | hb
-                · cases hb
-                · exact hb
-            · exact OK.join_right _ (ih m (by omega) els s i _ hsi)
+              rcases hb with hb | hb
+              · left; simp only [hb]
+              · cases hx : r.exit <;> rw [hx] at hb <;> simp only [Post.get] at hb <;> simp only []
+                case stuck => left; exact hx
+                case norm => exact ihm (by omega) _ _ (hb.covers (invStable_norm hstab))
+                case cont => exact ihm (by omega) _ _ (hb.covers (invStable_cont hstab))
+                case brk =>
+                  apply OK.join_left
+                  exact Or.inr hb
+                all_goals
+                  apply OK.join_left
+                  right; rw [hx]; exact hb
+            · exact OK.join_right _ (OK.ofBind hi (ih m (by omega) els s i _ hsi))
         simp only [post]
         split
         · rename_i hc
           simp only [Bool.and_eq_true] at hc
-          exact key _ hc.2 (n + 1) (Nat.le_refl _) s os (Sound.of_le hc.1 hs)
-        · exact key _ (invStable_bot _) (n + 1) (Nat.le_refl _) s os hs.bot
+          apply key _ hc.2 (n + 1) (Nat.le_refl _) s os
+          have := hc.1
+          simp only [AbsSet.covers, List.any_eq_true] at this
+          obtain ⟨i, hi, hle⟩ := this
+          exact ⟨i, hi, Sound.of_le hle hs⟩
+        · exact key _ (bindAll_bot_norm_covered _) (n + 1) (Nat.le_refl _) s os
+            ⟨Abs.bot, List.mem_singleton.mpr rfl, hs.bot⟩
       | tryCatch body h =>
         simp only [run, post]
         have hb := ihn body s a os hs
         generalize run n body s os = r at hb ⊢
         generalize post body a = p at hb ⊢
-        rw [OK_iff] at hb
-        cases hx : r.exit <;> rw [hx] at hb <;> simp only [Post.get] at hb <;> simp only []
-        case stuck => apply OK.join_left; rw [OK_iff]; left; exact hx
-        case exc =>
-          rcases hb with hb | hb
-          · cases hb
-          · have := Holds.omeet_left p.roExc hb
-            obtain ⟨x, hxe, hsx⟩ := this
-            rw [hxe]
-            exact OK.join_right _ (ihn h _ x _ hsx)
-        case roExc =>
-          rcases hb with hb | hb
-          · cases hb
-          · have := Holds.omeet_right p.exc hb
-            obtain ⟨x, hxe, hsx⟩ := this
-            rw [hxe]
-            exact OK.join_right _ (ihn h _ x _ hsx)
-        all_goals
-          apply OK.join_left
-          rw [OK_iff]; right; rw [hx]
-          rcases hb with hb | hb
-          · cases hb
-          · exact hb
+        rcases hb with hb | ⟨a', ha', hs'⟩
+        · left; simp only [hb]
+        · cases hx : r.exit <;> rw [hx] at ha' <;> simp only [Post.get] at ha' <;> simp only []
+          case stuck => cases ha'
+          case exc =>
+            exact OK.join_right _ (OK.ofBind (mem_union.mpr (Or.inl ha')) (ihn h _ a' _ hs'))
+          case roExc =>
+            exact OK.join_right _ (OK.ofBind (mem_union.mpr (Or.inr ha')) (ihn h _ a' _ hs'))
+          all_goals
+            apply OK.join_left
+            right; rw [hx]; exact ⟨a', ha', hs'⟩
       | tryFinally body fin =>
         simp only [run, post]
         have hb := ihn body s a os hs
         generalize run n body s os = r at hb ⊢
         generalize post body a = p at hb ⊢
-        rw [OK_iff] at hb
-        cases hx : r.exit <;> rw [hx] at hb <;> simp only [Post.get] at hb <;> simp only []
-        case stuck => rw [OK_iff]; left; exact hx
-        case norm =>
-          rcases hb with hb | hb
-          · cases hb
-          · obtain ⟨x, hxe, hsx⟩ := hb
-            exact OK.join_left _ (finThru_ok hxe (by decide) (ihn fin _ x _ hsx))
-        case ret =>
-          rcases hb with hb | hb
-          · cases hb
-          · obtain ⟨x, hxe, hsx⟩ := hb
-            exact OK.join_right _ (OK.join_left _ (finThru_ok hxe (by decide) (ihn fin _ x _ hsx)))
-        case brk =>
-          rcases hb with hb | hb
-          · cases hb
-          · obtain ⟨x, hxe, hsx⟩ := hb
-            exact OK.join_right _ (OK.join_right _ (OK.join_left _ (finThru_ok hxe (by decide) (ihn fin _ x _ hsx))))
-        case cont =>
-          rcases hb with hb | hb
-          · cases hb
-          · obtain ⟨x, hxe, hsx⟩ := hb
+        rcases hb with hb | ⟨a', ha', hs'⟩
+        · left; simp only [hb]
+        · cases hx : r.exit <;> rw [hx] at ha' <;> simp only [Post.get] at ha' <;> simp only []
+          case stuck => cases ha'
+          case norm => exact OK.join_left _ (finThru_ok ha' (by decide) (ihn fin _ a' _ hs'))
+          case ret => exact OK.join_right _ (OK.join_left _ (finThru_ok ha' (by decide) (ihn fin _ a' _ hs')))
+          case brk =>
+            exact OK.join_right _ (OK.join_right _ (OK.join_left _ (finThru_ok ha' (by decide) (ihn fin _ a' _ hs'))))
+          case cont =>
             exact OK.join_right _ (OK.join_right _ (OK.join_right _
-              (OK.join_left _ (finThru_ok hxe (by decide) (ihn fin _ x _ hsx)))))
-        case exc =>
-          rcases hb with hb | hb
-          · cases hb
-          · obtain ⟨x, hxe, hsx⟩ := hb
+              (OK.join_left _ (finThru_ok ha' (by decide) (ihn fin _ a' _ hs')))))
+          case exc =>
             exact OK.join_right _ (OK.join_right _ (OK.join_right _ (OK.join_right _
-              (OK.join_left _ (finThru_ok hxe (by decide) (ihn fin _ x _ hsx))))))
-        case roExc =>
-          rcases hb with hb | hb
-          · cases hb
-          · obtain ⟨x, hxe, hsx⟩ := hb
+              (OK.join_left _ (finThru_ok ha' (by decide) (ihn fin _ a' _ hs'))))))
+          case roExc =>
             exact OK.join_right _ (OK.join_right _ (OK.join_right _ (OK.join_right _
-              (OK.join_right _ (finThru_ok hxe (by decide) (ihn fin _ x _ hsx))))))
+              (OK.join_right _ (finThru_ok ha' (by decide) (ihn fin _ a' _ hs'))))))
       | scope body =>
         simp only [run, post]
         have hb := ihn body s a os hs
         generalize run n body s os = r at hb ⊢
         generalize post body a = p at hb ⊢
-        rw [OK_iff] at hb
-        cases hx : r.exit <;> rw [hx] at hb <;> simp only [Post.get] at hb <;> simp only []
-        case stuck => rw [OK_iff]; left; exact hx
-        case norm =>
-          rcases hb with hb | hb
-          · cases hb
-          · rw [OK_iff]; right; rw [hx]; exact Holds.omeet_left _ hb
-        case ret =>
-          rcases hb with hb | hb
-          · cases hb
-          · rw [OK_iff]; right; exact Holds.omeet_right _ hb
-        all_goals
-          rw [OK_iff]; right; rw [hx]
-          rcases hb with hb | hb
-          · cases hb
-          · exact hb
+        rcases hb with hb | ⟨a', ha', hs'⟩
+        · left; simp only [hb]
+        · cases hx : r.exit <;> rw [hx] at ha' <;> simp only [Post.get] at ha' <;> simp only []
+          case stuck => cases ha'
+          case norm => right; rw [hx]; exact ⟨a', mem_union.mpr (Or.inl ha'), hs'⟩
+          case ret => right; exact ⟨a', mem_union.mpr (Or.inr ha'), hs'⟩
+          all_goals (right; rw [hx]; exact ⟨a', ha', hs'⟩)
 
 theorem entry_sound (fs : List Field) (st : St) : Sound st st (Abs.entry fs) :=
   ⟨fun _ _ => rfl, fun _ h => by simp [Abs.entry] at h, fun _ h => by simp [Abs.entry] at h,
@@ -602,31 +558,28 @@ theorem entryRO_sound (fs : List Field) (st : St) (hro : st.readonly = true) : S
    fun _ h => by simp [Abs.entryRO] at h, fun _ h => by simp [Abs.entryRO] at h, Nat.le_refl _,
    ⟨fun h => by simp [Abs.entryRO] at h, fun _ => hro⟩⟩
 
-theorem clean_of_holds {s0 s : St} {fs : List Field} {o : Option Abs} (h : Holds s0 o s)
+theorem clean_of_holds {s0 s : St} {fs : List Field} {o : AbsSet} (h : Holds s0 o s)
     (hc : okClean fs o = true) : ∀ f ∈ fs, s.cur f = s0.cur f := by
-  obtain ⟨a, rfl, hs⟩ := h
+  obtain ⟨a, ha, hs⟩ := h
   intro f hf
-  simp only [okClean, Abs.allClean, List.all_eq_true, decide_eq_true_eq] at hc
-  exact hs.clean f (hc f hf)
+  simp only [okClean, List.all_eq_true] at hc
+  have := hc a ha
+  simp only [Abs.allClean, List.all_eq_true, decide_eq_true_eq] at this
+  exact hs.clean f (this f hf)
 
 theorem disciplined_atomic_aux (fs : List Field) (sc : Stmt) (hd : Disciplined fs sc = true)
     (fuel : Nat) (st : St) (os : Outcomes) (hwf : st.WF)
     (hexc : (run fuel sc st os).exit = .exc ∨ (run fuel sc st os).exit = .roExc) :
     ∀ f ∈ fs, (run fuel sc st os).st.cur f = st.cur f := by
   have hs := post_sound st hwf fuel sc st (Abs.entry fs) os (entry_sound fs st)
-  rw [OK_iff] at hs
-  have hd' : okClean fs (post sc (Abs.entry fs)).exc = true ∧ okClean fs (post sc (Abs.entry fs)).roExc = true := by
-    simp only [Disciplined, Bool.and_eq_true] at hd
-    exact hd
+  simp only [Disciplined, Bool.and_eq_true] at hd
   rcases hexc with h | h
-  · rw [h] at hs
-    rcases hs with hs | hs
-    · cases hs
-    · exact clean_of_holds hs hd'.1
-  · rw [h] at hs
-    rcases hs with hs | hs
-    · cases hs
-    · exact clean_of_holds hs hd'.2
+  · rcases hs with hs | hs
+    · rw [h] at hs; cases hs
+    · rw [h] at hs; exact clean_of_holds hs hd.1
+  · rcases hs with hs | hs
+    · rw [h] at hs; cases hs
+    · rw [h] at hs; exact clean_of_holds hs hd.2
 
 theorem readonly_safe_aux (fs : List Field) (sc : Stmt) (hd : ReadonlySafe fs sc = true)
     (fuel : Nat) (st : St) (os : Outcomes) (hwf : st.WF) (hro : st.readonly = true)
@@ -635,7 +588,6 @@ theorem readonly_safe_aux (fs : List Field) (sc : Stmt) (hd : ReadonlySafe fs sc
   have hs := post_sound st hwf fuel sc st (Abs.entryRO fs) os (entryRO_sound fs st hro)
   simp only [ReadonlySafe, Bool.and_eq_true] at hd
   obtain ⟨⟨⟨⟨⟨h1, h2⟩, h3⟩, h4⟩, h5⟩, h6⟩ := hd
-  rw [OK_iff] at hs
   rcases hs with hs | hs
   · exact absurd hs hne
   · cases hx : (run fuel sc st os).exit <;> rw [hx] at hs <;> simp only [Post.get] at hs
